@@ -2,7 +2,22 @@
 model are evaluated by the same engine and compared by truth table over their branch atoms (btlint.equiv)."""
 
 from .. import equiv, sym
+from ..source import ctor_field_map
 from .common import ALGOS, CORE, short
+
+
+_FROZEN = []
+
+
+def _frozen_ctor_fields():
+    """private field -> constructor parameter, as the reference models (written against the pinned tree) name them"""
+    if not _FROZEN:
+        import json
+        import os
+
+        with open(os.path.join(os.path.dirname(os.path.dirname(os.path.abspath(__file__))), "data", "ctor_fields.json")) as f:
+            _FROZEN.append(json.load(f))
+    return _FROZEN[0]
 
 
 def check_equiv(chk, rule, module, cls, name, ref_src, key, what, host=None, ignore_fields=(), no_inline=(), depth=None, limit=14):
@@ -10,7 +25,8 @@ def check_equiv(chk, rule, module, cls, name, ref_src, key, what, host=None, ign
     fi = chk.prog.func(module, cls, name)
     S = chk.summary(module, cls, name, host=host, no_inline=no_inline, depth=depth)
     Rf = chk.ref(ref_src, host, module=module, depth=depth, no_inline=no_inline)
-    n, diffs = equiv.compare(S, Rf, limit=limit, ignore_fields=ignore_fields)
+    code_fields, ref_fields = ({}, {}) if cls is None else (ctor_field_map(chk.prog, host), _frozen_ctor_fields().get(host, {}))
+    n, diffs = equiv.compare(S, Rf, limit=limit, ignore_fields=ignore_fields, code_fields=code_fields, ref_fields=ref_fields)
     hostname = "%s.%s" % (cls, name)
     chk.site()
     if n < 0:
